@@ -31,13 +31,14 @@ SPAN_CARRY_REVIEWED = {
 }
 
 
-def span_carry(rep, prog, rule="SPAN-CARRY", floor=50):
+def span_carry(rep, prog, rule="SPAN-CARRY", floor=12):
     rep.rule(rule, "in a function that stores units of a Span (the <unit>_ranged / try_<unit>_ranged setters), every division of a ranged "
                    "integer is the truncating pair div_ceil / rem_ceil (which, on jiff's ranged integers, truncate toward zero): a Span "
                    "is magnitudes plus ONE sign, so the quotient carried up and the remainder left behind must have the sign of the "
                    "dividend. The ranged `/` and `%` are Euclidean: -10 days become -2 weeks and +4 days, which the setters store as "
                    "-2w 4d = -18 days. Functions that divide a known non-negative magnitude are listed with a reason")
     n_trunc = n_fn = 0
+    seen_fns = []
     for name, g in sorted(prog.fns.items()):
         if not name.startswith("jiff::") or "rangeint" in name:
             continue
@@ -50,6 +51,7 @@ def span_carry(rep, prog, rule="SPAN-CARRY", floor=50):
             continue
         n_fn += 1
         n_trunc += len(tr)
+        seen_fns.append(name)
         if not eu:
             rep.ok(rule, name, how="%d truncating divisions, no Euclidean one" % len(tr), loc=g.loc())
         elif name in SPAN_CARRY_REVIEWED:
@@ -60,7 +62,12 @@ def span_carry(rep, prog, rule="SPAN-CARRY", floor=50):
                           "that stores Span units: for a negative dividend the quotient is rounded down and the remainder is "
                           "non-negative, so the two units get different signs and the span denotes another duration"
                           % (len(eu), t["span"]["line"]), "%s:%s" % (t["span"]["file"], t["span"]["line"]))
+    # 56 on the pinned tree (28 + 28 in Span::from_invariant_nanoseconds alone); the floor is far lower because sharing the arm
+    # prefixes through helpers (a behaviour-preserving refactor) removes most of the duplicates
     rep.floor(rule + " truncating divisions in unit-storing functions", n_trunc, floor)
+    if not any(n.startswith("jiff::span::Span::from_invariant_nanoseconds") for n in seen_fns):
+        rep.violation(rule, "anchor", "anchor missing: Span::from_invariant_nanoseconds (or a helper named after it) no longer both "
+                      "divides and stores units", "src/span.rs")
     return n_fn
 
 
@@ -79,15 +86,36 @@ def _strip(t):
     return t
 
 
-def canon_name(rep, prog, rule="CANON-NAME", floor=2):
-    rep.rule(rule, "every database back-end builds the zone it found with the name recorded by the database (the index entry of the "
-                   "concatenated file, the canonical name returned by the bundled table, the name collected by the directory walk), "
-                   "never with the caller's query: lookup is ASCII-case-insensitive, so the query is only equal to the name up to "
-                   "case; a zone named by the query prints and compares by whatever spelling was asked first, and the cache (keyed "
-                   "case-insensitively) hands that spelling to every later caller")
-    n = 0
+def _arg_at_callers(prog, callee_name, param_local):
+    """(caller name, argument term) for every call of `callee_name` (a `crate::path` key of prog.fns) inside the program; the
+    MIR local of a parameter is its 1-based position"""
+    short = callee_name.split("::", 1)[1]
+    for cn, cg in prog.fns.items():
+        T = None
+        for bi, t in mir.iter_calls(cg):
+            if t.get("path") == short and len(t.get("args", [])) >= param_local:
+                T = T or Terms(cg)
+                yield (cn, T.at_call(bi, t, param_local - 1))
+
+
+def _is_query(prog, fn_name, term, depth):
+    """does `term` (evaluated in fn_name) come down to a string parameter handed in from outside the crate?"""
+    s = _strip(term)
+    if not (isinstance(s, tuple) and s and s[0] == "param"):
+        return False
+    if depth >= 3:
+        return True
+    up = list(_arg_at_callers(prog, fn_name, s[1]))
+    if not up:
+        return True
+    return any(_is_query(prog, cn, ct, depth + 1) for (cn, ct) in up)
+
+
+def _canon_sites(prog, prefix, skip=(), depth=0):
+    """yield (fn name, ordinal, loc, name term, verdict) for every call of TimeZone::tzif in functions under `prefix`;
+    verdict is None when fine, else a text"""
     for name, g in sorted(prog.fns.items()):
-        if not name.startswith("jiff::tz::") or name.startswith("jiff::tz::timezone"):
+        if not name.startswith(prefix) or any(name.startswith(x) for x in skip):
             continue
         T = None
         k = 0
@@ -96,11 +124,18 @@ def canon_name(rep, prog, rule="CANON-NAME", floor=2):
                 continue
             T = T or Terms(g)
             k += 1
-            n += 1
             a = T.at_call(bi, t, 0)
-            key = "%s | tzif#%d" % (name, k)
             loc = "%s:%s" % (t["span"]["file"], t["span"]["line"])
             s = _strip(a)
+            bad = None
+            if isinstance(s, tuple) and s and s[0] == "param" and depth < 3:
+                # a string parameter: when the function has callers inside the crate (a private helper that is handed the
+                # entry's name), the question moves to those call sites; a function without callers in the crate is the lookup
+                # entry point and its string parameter is the query
+                up = list(_arg_at_callers(prog, name, s[1]))
+                if up and all(not _is_query(prog, cn, ct, depth + 1) for (cn, ct) in up):
+                    yield (name, k, loc, a, None)
+                    continue
             if isinstance(s, tuple) and s and s[0] == "param":
                 ty = ""
                 try:
@@ -108,12 +143,35 @@ def canon_name(rep, prog, rule="CANON-NAME", floor=2):
                 except Exception:
                     pass
                 if "str" in ty or "String" in ty or not ty:
-                    rep.violation(rule, key, "the zone is built with the name `%s`, which is the function's own string parameter (the "
-                                  "caller's query), not the database's spelling of the name" % show(a, maxd=3)[:60], loc)
-                    continue
-            if s and isinstance(s, tuple) and s[0] == "phi" and any(isinstance(_strip(x), tuple) and _strip(x)[:1] == ("param",) for x in s[1:] if isinstance(x, tuple)):
-                rep.violation(rule, key, "on some path the zone is built with a string parameter of the function: %s" % show(a, maxd=3)[:80], loc)
-                continue
+                    bad = ("the zone is built with the name `%s`, which is the function's own string parameter (the caller's "
+                           "query), not the database's spelling of the name" % show(a, maxd=3)[:60])
+            elif isinstance(s, tuple) and s and s[0] == "phi" and any(isinstance(_strip(x), tuple) and _strip(x)[:1] == ("param",)
+                                                                     for x in s[1:] if isinstance(x, tuple)):
+                bad = "on some path the zone is built with a string parameter of the function: %s" % show(a, maxd=3)[:80]
+            yield (name, k, loc, a, bad)
+
+
+def canon_name(rep, prog, rule="CANON-NAME", floor=2):
+    from . import facts
+    rep.rule(rule, "every database back-end builds the zone it found with the name recorded by the database (the index entry of the "
+                   "concatenated file, the canonical name returned by the bundled table, the name collected by the directory walk), "
+                   "never with the caller's query: lookup is ASCII-case-insensitive, so the query is only equal to the name up to "
+                   "case; a zone named by the query prints and compares by whatever spelling was asked first, and the cache (keyed "
+                   "case-insensitively) hands that spelling to every later caller")
+    ctl = {n.rsplit("::", 1)[-1]: bad for (n, _k, _l, _a, bad) in _canon_sites(facts.load_controls(), "controls::")}
+    if ctl.get("bad_canon_name") and "good_canon_name" in ctl and not ctl["good_canon_name"] \
+            and ctl.get("build_zone_from_query") and "build_zone" in ctl and not ctl["build_zone"]:
+        rep.ok(rule, "_controls", how="reports bad_canon_name and the helper handed the query, accepts good_canon_name and the helper "
+                                      "handed the entry's name (fixtures/controls)")
+    else:
+        rep.violation(rule, "_controls", "the matcher no longer separates the control functions: %s" % sorted(ctl.items(), key=str), "fixtures/controls/src/lib.rs")
+    n = 0
+    for (name, k, loc, a, bad) in _canon_sites(prog, "jiff::tz::", skip=("jiff::tz::timezone",)):
+        n += 1
+        key = "%s | tzif#%d" % (name, k)
+        if bad:
+            rep.violation(rule, key, bad, loc)
+        else:
             rep.ok(rule, key, how="name = %s" % show(a, maxd=4)[:70], loc=loc)
     rep.floor(rule + " zone construction sites in database back-ends", n, floor)
     return n
@@ -175,23 +233,16 @@ def lookahead_agree(rep, prog, rule="LOOKAHEAD-AGREE"):
 
 
 # ------------------------------------------------------------------------------------------------------------------
-def dummy_guard(rep, prog, rule="DUMMY-GUARD"):
-    rep.rule(rule, "Tzif::previous_transition reads the table entry it yields (local_time_type(index), timestamps()[index]) only under a "
-                   "test that excludes index 0 made on the SAME value of `index` (same reaching definitions): entry 0 is the dummy "
-                   "transition jiff inserts at the minimal timestamp, and the loop that skips no-op entries can walk the index "
-                   "down to it after an earlier test has passed (Europe/Lisbon: the first recorded transition changes nothing), "
-                   "so a test made before the last decrement does not count")
-    f = [g for n, g in prog.fns.items() if n.startswith("jiff::tz::tzif::Tzif::<") and n.endswith(">::previous_transition")]
-    if len(f) != 1:
-        rep.violation(rule, "anchor", "anchor missing: Tzif::previous_transition (%d candidates)" % len(f), "src/tz/tzif.rs")
-        return
-    f = f[0]
+def _dummy_uses(f, prog=None):
+    """yield (call, ok) for every local_time_type(index) call of f: ok = a dominating test excludes 0 on the same value of index"""
     T, cfg = Terms(f), mir.CFG(f)
-    n = 0
     for bi, t in mir.iter_calls(f):
-        if not t.get("path", "").endswith("local_time_type"):
-            continue
-        n += 1
+        p = t.get("path", "")
+        if not p.endswith("local_time_type"):
+            # a private helper that is handed the index and reads the entry there (Tzif::transition_at(index))
+            h = prog.fns.get(f.crate + "::" + p) if prog is not None else None
+            if h is None or len(t.get("args", [])) != 2 or not any(tt.get("path", "").endswith("local_time_type") for _b, tt in mir.iter_calls(h)):
+                continue
         use = T.at_call(bi, t, 1)
         ok = False
         for (c, tr, _sb) in guards(f, cfg, T, bi):
@@ -204,6 +255,30 @@ def dummy_guard(rep, prog, rule="DUMMY-GUARD"):
                 continue
             if (op == "Eq" and tr2 is False) or (op in ("Ne", "Gt") and tr2 is True):
                 ok = True
+        yield (t, ok)
+
+
+def dummy_guard(rep, prog, rule="DUMMY-GUARD"):
+    rep.rule(rule, "Tzif::previous_transition reads the table entry it yields (local_time_type(index), timestamps()[index]) only under a "
+                   "test that excludes index 0 made on the SAME value of `index` (same reaching definitions): entry 0 is the dummy "
+                   "transition jiff inserts at the minimal timestamp, and the loop that skips no-op entries can walk the index "
+                   "down to it after an earlier test has passed (Europe/Lisbon: the first recorded transition changes nothing), "
+                   "so a test made before the last decrement does not count")
+    f = [g for n, g in prog.fns.items() if n.startswith("jiff::tz::tzif::Tzif::<") and n.endswith(">::previous_transition")]
+    if len(f) != 1:
+        rep.violation(rule, "anchor", "anchor missing: Tzif::previous_transition (%d candidates)" % len(f), "src/tz/tzif.rs")
+        return
+    f = f[0]
+    from . import facts
+    ctl = {g.path.rsplit("::", 1)[-1]: [ok for (_t, ok) in _dummy_uses(g)] for n_, g in facts.load_controls().fns.items()
+           if n_.endswith("_dummy_guard")}
+    if ctl.get("bad_dummy_guard") == [False] and ctl.get("good_dummy_guard") == [True]:
+        rep.ok(rule, "_controls", how="reports bad_dummy_guard, accepts good_dummy_guard (fixtures/controls)")
+    else:
+        rep.violation(rule, "_controls", "the matcher no longer separates the control functions: %s" % ctl, "fixtures/controls/src/lib.rs")
+    n = 0
+    for (t, ok) in _dummy_uses(f, prog):
+        n += 1
         key = "previous_transition | local_time_type#%d" % n
         loc = "%s:%s" % (t["span"]["file"], t["span"]["line"])
         if ok:
@@ -229,6 +304,7 @@ FAMILIES = [
     ("%U / %W (week of year)", ("fmt_week_sun", "fmt_week_mon")),
 ]
 ISO_FAMILY = ("fmt_iso_week_year", "fmt_iso_week_year2", "fmt_week_iso")
+_MEMBERS = {m for _t, ms in FAMILIES for m in ms} | set(ISO_FAMILY)
 
 
 def sibling_source(rep, prog, rule="SIBLING-SOURCE"):
@@ -243,10 +319,19 @@ def sibling_source(rep, prog, rule="SIBLING-SOURCE"):
         if not m:
             continue
         s = acc.setdefault(m.group(1), set())
-        for _bi, t in mir.iter_calls(g):
-            p = t.get("path", "")
-            if p.startswith("civil::") or "BrokenDownTime" in p or p.startswith(("zoned::", "timestamp::", "tz::")):
-                s.add(re.sub(r"<.*?>", "", p))
+        seen, work = set(), [(g, 0)]
+        while work:
+            h, d = work.pop()
+            for _bi, t in mir.iter_calls(h):
+                p = t.get("path", "")
+                if p.startswith("civil::") or "BrokenDownTime" in p or p.startswith(("zoned::", "timestamp::", "tz::")):
+                    s.add(re.sub(r"<.*?>", "", p))
+                elif p.startswith("fmt::strtime::format::") and p.rsplit("::", 1)[-1] not in _MEMBERS and d < 2 and p not in seen:
+                    # a private helper of the formatter module: what it reads counts as read by the directive
+                    seen.add(p)
+                    for hn, hh in prog.fns.items():          # the helper and its closures
+                        if hn == "jiff::" + p or hn.startswith("jiff::" + p + "::{closure"):
+                            work.append((hh, d + 1))
     nfam = 0
     for title, members in FAMILIES:
         missing = [m for m in members if m not in acc]
@@ -255,6 +340,9 @@ def sibling_source(rep, prog, rule="SIBLING-SOURCE"):
             continue
         nfam += 1
         ref = acc[members[0]]
+        if not ref:
+            rep.violation(rule, title, "anchor missing: %s calls no civil/BrokenDownTime accessor (the matcher sees nothing)" % members[0], "src/fmt/strtime/format.rs")
+            continue
         diff = [(m, sorted(acc[m] ^ ref)) for m in members[1:] if acc[m] != ref]
         if diff:
             rep.violation(rule, title, "; ".join("%s and %s read different facts: %s" % (members[0], m, [d.rsplit("::", 2)[-2] + "::" + d.rsplit("::", 1)[-1] for d in dd])
@@ -361,3 +449,159 @@ def type_writers(rep, prog, rule="TYPE-WRITERS"):
     else:
         rep.violation(rule, "dummy entry type", "no call of add_with_type_index passes the constant type 0: the dummy entry at the minimal "
                       "timestamp must carry local time type 0", "src/shared/tzif.rs")
+
+
+# ------------------------------------------------------------------------------------------------------------------
+def _path_conds(f, T, path):
+    """[(condition term, truth)] of the switches taken along a block path (bool switches only)"""
+    out = []
+    for u, v in zip(path, path[1:]):
+        t = f.blocks[u]["term"]
+        if t["t"] != "switch" or t.get("op_ty") != "bool":
+            continue
+        vals, tg = list(t["vals"]), list(t["targets"])
+        if v in tg and v != t["otherwise"]:
+            truth = bool(vals[tg.index(v)])
+        elif v == t["otherwise"] and v not in tg:
+            truth = not bool(vals[0]) if len(vals) == 1 else None
+        else:
+            truth = None
+        if truth is None:
+            continue
+        c, tr = strip_not(T.operand(t["op"], 0, (u, "term")), truth)
+        out.append((c, tr))
+    return out
+
+
+def _succ_sites(f):
+    """(block, call, base term, k) for every <ranged>::new_unchecked(X + k), k > 0, in f"""
+    T = Terms(f)
+    for bi, t in mir.iter_calls(f):
+        if not t.get("path", "").endswith("new_unchecked") or not t.get("args"):
+            continue
+        a = T.at_call(bi, t, 0)
+        while isinstance(a, tuple) and a and (a[0] in ("cast",) or (a[0] == "field" and a[2] in ("0", "val"))):
+            a = a[1]
+        if isinstance(a, tuple) and a and a[0] == "bin" and a[1].startswith("Add") and isinstance(a[3], tuple) and a[3][:1] == ("const",) \
+                and isinstance(a[3][1], int) and a[3][1] > 0:
+            yield (bi, t, a[2], a[3][1], T)
+
+
+def day_succ(rep, prog, rule="DAY-SUCC", crate="jiff", fn_filter=lambda n: n.startswith("jiff::civil::date::Date::"), floor=1):
+    from .rules_signpair import _paths
+    rep.rule(rule, "where a civil date is built from the receiver's own year and month and its day plus a constant through the unchecked "
+                   "constructors (Date::tomorrow), every path to that construction establishes either that the day is below 28 (the "
+                   "length of the shortest month: day + 1 exists in every month) or that the day is not the last of its month "
+                   "(`day == days_in_month` false). A pre-filter `day > 28` lets February 28 of a common year through to a "
+                   "February 29 that the unchecked constructor does not refuse")
+    n = 0
+    for name, f in sorted(prog.fns.items()):
+        if not fn_filter(name):
+            continue
+        for (bi, t, base, k, T) in _succ_sites(f):
+            if not (is_call(base, "day") or is_call(base, "Date::day") or (isinstance(base, tuple) and base[:1] == ("field",) and base[2] == "day")):
+                continue
+            cfg = mir.CFG(f)
+            paths = _paths(cfg, bi, 400)
+            key = "%s | day + %d" % (name, k)
+            loc = "%s:%s" % (t["span"]["file"], t["span"]["line"])
+            n += 1
+            if paths is None:
+                rep.violation(rule, key, "too many paths to decide", loc)
+                continue
+            bad = None
+            for p in paths:
+                ok = False
+                for (c, tr) in _path_conds(f, T, p):
+                    if not (isinstance(c, tuple) and c and c[0] == "bin" and len(c) >= 4):
+                        continue
+                    op, x, y = c[1], c[2], c[3]
+                    if x != base:
+                        continue
+                    if isinstance(y, tuple) and y[:1] == ("const",) and isinstance(y[1], int):
+                        K = y[1]
+                        # conditions that bound the day by 28 - k from above (so day + k <= 28)
+                        lim = 28 - k
+                        if (op == "Ge" and tr is False and K - 1 <= lim) or (op == "Gt" and tr is False and K <= lim) or \
+                           (op == "Lt" and tr is True and K - 1 <= lim) or (op == "Le" and tr is True and K <= lim):
+                            ok = True
+                    elif any(is_call(z, "days_in_month") for z in walk(y)) and k == 1:
+                        if (op == "Eq" and tr is False) or (op == "Ne" and tr is True) or (op == "Lt" and tr is True):
+                            ok = True
+                if not ok:
+                    bad = p
+                    break
+            if bad is None:
+                rep.ok(rule, key, how="%d path(s), each with day <= %d or day != days_in_month" % (len(paths), 28 - k), loc=loc)
+            else:
+                conds = "; ".join(("" if tr else "!") + show(c, maxd=3)[:50] for (c, tr) in _path_conds(f, T, bad)) or "no condition"
+                rep.violation(rule, key, "a path reaches this construction knowing only [%s]: that neither bounds the day by %d nor excludes the "
+                              "last day of the month, so day + %d can exceed the month's length" % (conds, 28 - k, k), loc)
+    rep.floor(rule + " day-successor constructions", n, floor)
+    return n
+
+
+# ------------------------------------------------------------------------------------------------------------------
+def mul_factor(rep, prog, rule="MUL-FACTOR"):
+    rep.rule(rule, "Span::checked_mul multiplies every one of the ten unit magnitudes by |rhs| (the factor handed to try_checked_mul is an "
+                   "`abs` of the converted rhs) and folds signum(rhs) into the single sign field exactly once: a Span is magnitudes "
+                   "plus one sign, so a unit multiplied by the signed rhs flips its sign twice and ends up opposite to the others")
+    f = prog.jiff("span::Span::checked_mul")
+    T = Terms(f)
+    n_abs = n_sign = 0
+    bad = []
+    for bi, t in mir.iter_calls(f):
+        p = t.get("path", "")
+        if p.endswith("try_checked_mul") and len(t.get("args", [])) == 3:
+            a = T.at_call(bi, t, 2)
+            unit = show(T.at_call(bi, t, 0), maxd=2)
+            if is_call(a, "abs") and any(isinstance(x, tuple) and x[:1] == ("param",) for x in walk(a)):
+                n_abs += 1
+            else:
+                bad.append((unit, show(a, maxd=3)[:60], t["span"]["line"]))
+        elif re.search(r"Mul(Assign)?<.*>>::mul(_assign)?$", p) and len(t.get("args", [])) == 2:
+            if any(is_call(x, "signum") for x in walk(T.at_call(bi, t, 1))):
+                n_sign += 1
+    if bad:
+        rep.violation(rule, "factors", "; ".join("%s is multiplied by %s (line %s), not by abs(rhs)" % b for b in bad), f.loc())
+    elif n_abs != 10 or n_sign != 1:
+        rep.violation(rule, "factors", "expected ten magnitudes multiplied by abs(rhs) and one sign update by signum(rhs); found %d and %d"
+                      % (n_abs, n_sign), f.loc())
+    else:
+        rep.ok(rule, "factors", how="10 magnitudes x abs(rhs), sign x signum(rhs) once", loc=f.loc())
+
+
+def utc_whole(rep, prog, rule="UTC-WHOLE"):
+    rep.rule(rule, "TimeZone::fixed hands out the shared UTC handle only under a comparison of the WHOLE offset (its seconds) with zero: "
+                   "the guard of that return is `seconds == 0` on a term without division or remainder. A test of components "
+                   "(hours == 0 && minutes == 0) sends the 118 offsets below one minute to UTC, so a fixed-offset handle no longer "
+                   "reproduces its offset")
+    g = prog.jiff("tz::timezone::TimeZone::fixed")
+    T, cfg = Terms(g), mir.CFG(g)
+    found = False
+    for bi, b in enumerate(g.blocks):
+        for si, s in enumerate(b["st"]):
+            if s["s"] != "=" or s["lhs"]["l"] != 0 or s["lhs"].get("p"):
+                continue
+            if "TimeZone::UTC" not in show(T.rvalue(s["rv"], 0, (bi, si)), maxd=3):
+                continue
+            found = True
+            ok = False
+            why = []
+            for (c, tr, _sb) in guards(g, cfg, T, bi):
+                c2, tr2 = strip_not(c, tr)
+                why.append(("" if tr2 else "!") + show(c2, maxd=4)[:70])
+                if isinstance(c2, tuple) and c2[0] == "bin" and c2[1] == "Eq" and tr2 is True and len(c2) >= 4:
+                    x, y = c2[2], c2[3]
+                    if isinstance(y, tuple) and y[:1] == ("const",) and y[1] == 0 \
+                            and not any(isinstance(z, tuple) and z[:1] == ("bin",) and z[1] in ("Div", "Rem", "Shr", "BitAnd") for z in walk(x)) \
+                            and any(is_call(z, "seconds_ranged") or is_call(z, "seconds") for z in walk(x)):
+                        ok = True
+            loc = "%s:%s" % (g.file, s.get("ln", g.line))
+            if ok:
+                rep.ok(rule, "UTC return", how="guarded by %s" % " & ".join(why), loc=loc)
+            else:
+                rep.violation(rule, "UTC return", "the UTC handle is returned under [%s]: no comparison of the whole offset in seconds with "
+                              "zero" % " & ".join(why), loc)
+    if not found:
+        rep.violation(rule, "UTC return", "anchor missing: TimeZone::fixed no longer returns TimeZone::UTC on any path", g.loc())
